@@ -28,6 +28,7 @@
 -/
 import MdProofs.Lemmas.IndexCompose
 import MdProofs.C03
+import MdProofs.C06EnvW
 namespace MdModel.Index
 open MdModel
 open MdModel.Walk (Mem)
@@ -218,20 +219,54 @@ theorem state_cfi_frames_follow_c06 (d : Dump) (ts : List Thread) (s : State)
   rw [e0, e1] at this
   exact this
 
-/-
-  OPEN (statement kept, not proved): the same for dumps WITH STACK WIN records somewhere,
+/-- **state_cfi_frames_follow_c06W** — the `mkEnvW` branch of `env_spec`, off x86: for every dump
+    that yields a state, whose loaded modules' symbol files DO carry STACK WIN records somewhere
+    (`noWins = false`) and whose CPU is not x86 (amd64, arm, arm64, arm64old, mips32, mips64): every
+    frame of trust `cfi` of every call stack satisfies `FollowsC06` w.r.t. the frame below it — the
+    very conclusion of `state_cfi_frames_follow_c06`. The walk runs in `Walk.mkEnvW`, whose
+    symbolication differs from `mkEnv`'s (parameter sizes from STACK WIN) but whose
+    `get_caller_by_cfi` off x86 is STACK CFI evaluation (`CfiBridge.walk_frames_follow_c06W`, by
+    `walk_frames_follow_c06_env` over the abstract `CfiEnv`). -/
+theorem state_cfi_frames_follow_c06W (d : Dump) (ts : List Thread) (s : State)
+    (hth : d.threads = some ts) (h : index d = .state s)
+    (hn : Walk.noWins (winsOf d) = false) (hx86 : (unwinderOf d.arch).getD .x86 ≠ .x86)
+    (hregs : DumpRegsOk d)
+    (i : Nat) (h1 : i < ts.length) (h2 : i < s.stacks.length)
+    (r : Regs) (hr : startCtx d ts[i] = some r)
+    (j : Nat) (hj : j + 1 < s.stacks[i].frames.length)
+    (hcfi : s.stacks[i].frames[j + 1].f.trust = .cfi) :
+    FollowsC06 ((unwinderOf d.arch).getD .x86) (walkOs (Os.ofPlatformId d.platformId)) (worldOf d)
+      ((walkMem d (selectMem (memoryList d) ts[i] (some r.sp))).getD { base := 0, bytes := #[] })
+      s.stacks[i].frames[j].f s.stacks[i].frames[j + 1].f := by
+  have hw := stacks_are_walks d ts s hth h i h1 h2
+  rw [hr] at hw
+  simp only at hw
+  rw [(env_spec d _).2.2.2.1 hn] at hw
+  have hok : CtxOk ((unwinderOf d.arch).getD .x86) (toCtx d.arch r) :=
+    toCtx_ok _ _ _ (startCtx_regsOk d ts hth hregs ts[i] (List.getElem_mem h1) r hr)
+  obtain ⟨hj0, e0⟩ := getElem_of_map_eq hw j (by omega)
+  obtain ⟨hj1, e1⟩ := getElem_of_map_eq hw (j + 1) hj
+  have := CfiBridge.walk_frames_follow_c06W hx86 _ _ _ _ _ _ hok j hj1 (by rw [e1]; exact hcfi)
+  rw [e0, e1] at this
+  exact this
 
-    theorem state_cfi_frames_follow_c06W … (hn : Walk.noWins (winsOf d) = false)
-        (hx86 : (unwinderOf d.arch).getD .x86 ≠ .x86) … : FollowsC06 … frames[j].f frames[j+1].f
-
-  Obstacle: `walk_frames_follow_c06` / `follows_of_step` / `mkEnv_cfiOk` are stated about
-  `Walk.mkEnv`. Off x86 `mkEnvW`'s `cfi` IS `cfiOf` (`mkEnvW_cfi_arch`) and `instrOk`, `mask`,
-  `arch`, `os` are `mkEnv`'s (`rfl`), but `symb` differs (`fillSymbolW`: parameter size from STACK
-  WIN), so the two walks differ in `Frame.func` and the C06 theorem cannot be transported by an
-  equation of environments; it needs `follows_of_step` re-proved for an environment given by its
-  `cfi` field (a C06Env.lean change — another builder's file). On x86 with STACK WIN records a
-  `cfi`-trust frame may come from STACK WIN evaluation (`cfiWalkW`), which is C07's, not C06's.
--/
+/-- **state_cfi_frames_follow_c06_nonx86** — both branches of `env_spec` at once: on every CPU but
+    x86, with or without STACK WIN records in the symbol files, every frame of trust `cfi` of every
+    call stack of the state satisfies `FollowsC06`. The only hypotheses left are "the dump yields a
+    state", "its CPU is not x86" and `DumpRegsOk`. -/
+theorem state_cfi_frames_follow_c06_nonx86 (d : Dump) (ts : List Thread) (s : State)
+    (hth : d.threads = some ts) (h : index d = .state s)
+    (hx86 : (unwinderOf d.arch).getD .x86 ≠ .x86) (hregs : DumpRegsOk d)
+    (i : Nat) (h1 : i < ts.length) (h2 : i < s.stacks.length)
+    (r : Regs) (hr : startCtx d ts[i] = some r)
+    (j : Nat) (hj : j + 1 < s.stacks[i].frames.length)
+    (hcfi : s.stacks[i].frames[j + 1].f.trust = .cfi) :
+    FollowsC06 ((unwinderOf d.arch).getD .x86) (walkOs (Os.ofPlatformId d.platformId)) (worldOf d)
+      ((walkMem d (selectMem (memoryList d) ts[i] (some r.sp))).getD { base := 0, bytes := #[] })
+      s.stacks[i].frames[j].f s.stacks[i].frames[j + 1].f := by
+  cases hn : Walk.noWins (winsOf d) with
+  | true => exact state_cfi_frames_follow_c06 d ts s hth h hn hregs i h1 h2 r hr j hj hcfi
+  | false => exact state_cfi_frames_follow_c06W d ts s hth h hn hx86 hregs i h1 h2 r hr j hj hcfi
 
 /-! ## 3. C05's invariant and C03's frame bound, side by side -/
 
